@@ -664,3 +664,36 @@ def r6(cx):
     cx.site('%s: %d forwarder() calls' % (eb.fn, len(fw)))
     if len(fw) != 1:
         cx.violation(ENQF, 'forwarder-count', 'enqueue_forwarding must create exactly one sender/receiver pair', loc=eb.loc(eb.d))
+
+
+@RS.rule('C15.R6b', 'K-TYPESTATE', 'Receiver::poll returns Pending only with the relay left in Polled(waker): the wake-up for a later send is registered on every such path')
+def r6b(cx):
+    F = cx.F
+    RELAY = 'yash_executor::forwarder::Relay'
+    variants = [v['name'] for v in F.adt(RELAY)['variants']]
+    fns = [fn for fn in F.bodies if fn.endswith('core::future::future::Future>::poll') and 'forwarder::Receiver' in fn]
+    cx.require(len(fns) == 1, 'Receiver::poll not found: %s' % fns)
+    body = F.bodies[fns[0]]
+    cx.fn(body.fn)
+    refs = [i for i, l in enumerate(body.locals) if l['ty'].startswith('&mut ' + RELAY)]
+    named = [i for i in refs if body.locals[i].get('name')]
+    cx.require(len(named) == 1, 'expected one named &mut Relay local in Receiver::poll, found %s' % named)
+    st_in, st_out = Q.variant_state_at_exits(F, body, named[0], RELAY, variants)
+    exits = [(b, j, s) for b, j, s in Q.find_aggregates(body, 'core::task::poll::Poll', None) if s['lhs']['l'] == 0]
+    cx.require(exits, 'no Poll::* return value constructed in Receiver::poll')
+    for b, j, s in exits:
+        v = s['rv']['variant']
+        # state after the block's own writes
+        state = st_out.get(b)
+        cx.site('%s: return Poll::%s with relay in %s at %s' % (body.fn, v, sorted(state or []), body.loc(s)))
+        if v == 'Pending' and not (state and state <= {'Polled'}):
+            cx.violation(body.root, 'pending-without-registered-waker', 'Receiver::poll can return Poll::Pending leaving the relay in %s '
+                         'instead of Polled(waker): a later Sender::send then wakes nobody, the waiting task is never polled again and its '
+                         'result is lost' % sorted(state or ['?']), loc=body.loc(s))
+        if v == 'Ready' and not (state and state <= {'Done'}):
+            cx.violation(body.root, 'ready-without-done', 'Receiver::poll can return Poll::Ready leaving the relay in %s instead of Done: '
+                         'the value could be handed out again' % sorted(state or ['?']), loc=body.loc(s))
+
+import witness
+witness.add(RS, 'C15.R6w', ['c15_sender_send_twice', 'c15_sender_not_clone'],
+            'compile-fail witness: Sender::send consumes the sender (E0382) and Sender is not Clone (E0599), so a result is sent at most once')
